@@ -39,7 +39,7 @@ Proved here, for **all** buffers / numbers (no bound on digit counts or exponent
   (800-digit `Decimal`, `LeftShift`/`RightShift` with `LSHIFT_TAB`, `RoundedInteger`, `DecimalToF64`) returns the
   correctly rounded double for texts of any length and never faults; known finding: `C04_native_guard_needed`;
 * `C04_parseNumber_correct` (master theorem: every path of `parseNumber` agrees with the reference — `NumAgrees`),
-  `C04_parseNumber_correct'` (the same under the weak exponent guard: `|exp| < 100000` or token of at most 9600 bytes),
+  `C04_parseNumber_correct'` (the pre-fix statement with the exponent guard `|exp| < 100000` or token ≤ 9600 bytes, kept),
   `C04_parseNumber_malformed`, `C04_parseNumber_shape` (any token, guard or not: ends at the token's end),
   `C04_parseNumber_congr` (buffer independence), `C04_number_agrees_padded` (the same on the parser's buffer
   `bs ++ x"x ++ pad`, hypotheses on the text `bs` only), `C04_native_never_faults` (all byte strings).
@@ -49,8 +49,12 @@ Nothing of the conversion pipeline remains open: every path of `convert` (exact 
 about the code (`C04_native_guard_needed`): `AtofNative` is handed the REST OF THE BUFFER, and `SetDecimal` accepts a second `.`;
 so for a token with a fraction and no exponent that is directly followed by `.` (a text that is invalid JSON anyway and is rejected
 right afterwards) the double handed to the SAX handler is not the token's value.
-Known finding F6 (written exponents of 100000 and more saturate the `int exp` accumulator) is outside the guard
-`(expVal t.exp).natAbs < 100000` of `C04_accumulate`.
+Known finding F6 (written exponents of 100000 and more saturated the `int exp` accumulators of `parseNumber` and
+`SetDecimal`, so that e.g. `0.<100000 zeros>1e100001` was not parsed to 1.0) is FIXED in the code and in the models:
+both accumulators are `int64_t` and saturate at `10^15`, and the sums with the digit counts are clamped (`exp10` to
+`±100000`, `dp` to `±10^6`).  No theorem of this file has an exponent guard any more; where a bound is needed it is
+"the token is shorter than `2^32` bytes" (a written exponent of `10^16` and more saturates the accumulator, and the
+digit counts must not be able to compensate that).
 -/
 namespace Sonic.Props.C04
 
@@ -175,39 +179,33 @@ example : parseNumber [45, 48, 120] 2 0 = .ok (.uint 0) 2 .int := by decide +ker
 
 /-! ## the digit loops -/
 
-/-- **Accumulation.**  When the scanning phase reaches `double_fast` for the token `t` (whose written exponent is
-    below 100000 in magnitude: the `exp < 10000` cap of the exponent loop), the state `(man, exp10, trunc)` brackets
-    the exact decimal `mantissa·10^exponent`:
-    `man·10^exp10 ≤ mantissa·10^exponent < (man+1)·10^exp10` (written with `k = exp10 - exponent ≥ 0`), with equality
-    `man = mantissa, exp10 = exponent` when `trunc = 0`.  Moreover `man < 10^19`, and `trunc = 1` forces
-    `man ≥ 10^16 > 2^52`, so the exact fast path is never taken for a truncated mantissa. -/
+/-- **Accumulation** (no bound on the written exponent; the token is shorter than `2^32` bytes).  When the scanning
+    phase reaches `double_fast` for the token `t`, the state `(man, exp10, trunc)` brackets the exact decimal
+    `mantissa·10^exponent`: with `k` the number of dropped mantissa digits,
+    `man·10^k ≤ mantissa < (man+1)·10^k`, with equality `man = mantissa`, `k = 0` when `trunc = 0`; and `exp10` is the
+    exact exponent `exponent + k`, or — when that is beyond `±100000` — the clamp `±100000` on the same side (the written
+    exponent is accumulated in 64 bits while below `10^15`, and `exp10 + exp·esm` is clamped: the fix of known finding
+    F6).  Moreover `man < 10^19`, and `trunc = 1` forces `man ≥ 10^16 > 2^52`, so the exact fast path is never taken
+    for a truncated mantissa. -/
 theorem C04_accumulate (buf : List Nat) (start : Nat) (t : Token) (f : FloatIn)
-    (ht : scanToken (buf.drop start) = some t) (hf : accumulate buf start = .float f)
-    (hexp : (expVal t.exp).natAbs < 100000) :
+    (ht : scanToken (buf.drop start) = some t) (hf : accumulate buf start = .float f) (hL : t.len < 2 ^ 32) :
     f.next = start + t.len ∧ f.neg = t.neg ∧ f.man < 10 ^ 19 ∧ (f.trunc = true → 2 ^ 52 < f.man) ∧
-    ∃ k : Nat, f.exp10 = t.exponent + k ∧ f.man * 10 ^ k ≤ t.mantissa ∧ t.mantissa < (f.man + 1) * 10 ^ k ∧
-      (f.trunc = false → k = 0 ∧ f.man = t.mantissa ∧ f.exp10 = t.exponent) := by
+    ∃ k : Nat, f.man * 10 ^ k ≤ t.mantissa ∧ t.mantissa < (f.man + 1) * 10 ^ k ∧
+      (f.trunc = false → k = 0 ∧ f.man = t.mantissa) ∧
+      (f.exp10 = t.exponent + k ∨ (t.exponent + k > 100000 ∧ f.exp10 = 100000) ∨
+        (t.exponent + k < -100000 ∧ f.exp10 = -100000)) := by
   rcases (accumulate_spec buf start).2 t ht with ⟨_, _, h⟩ | ⟨_, _, h⟩ | ⟨_, f', h, hg⟩
   · rw [h] at hf; cases hf
   · rw [h] at hf; cases hf
   · rw [h] at hf
     simp only [Acc.float.injEq] at hf
     subst hf
-    obtain ⟨k, ev', h1, h2, h3, h4, h5, _⟩ := hg.acc
-    have hev := h5 hexp
-    subst hev
-    refine ⟨hg.next, hg.neg, hg.man_lt, ?_, k, ?_, h1, h2, ?_⟩
-    · intro htr
-      have := hg.trunc_big htr
-      have : (2 : Nat) ^ 52 < 10 ^ 16 := by decide
-      omega
-    · rw [exponent_eq, h4]
-    · intro htr
-      have hk := h3 htr
-      subst hk
-      simp only [Nat.pow_zero, Nat.mul_one] at h1 h2
-      refine ⟨rfl, by omega, ?_⟩
-      rw [exponent_eq, h4]; simp
+    refine ⟨hg.next, hg.neg, hg.man_lt, ?_,
+      Sonic.Proofs.NumberAll.good_tri t _ f' hg (Sonic.Proofs.NumberAll.token_digits _ t ht) (Or.inr hL)⟩
+    intro htr
+    have := hg.trunc_big htr
+    have : (2 : Nat) ^ 52 < 10 ^ 16 := by decide
+    omega
 
 -- non-vacuity: 27 integer digits, 19 kept, 8 counted in exp10, and the written exponent -1
 example : accumulate [49,49,48,54,55,55,52,55,48,51,57,53,51,56,55,53,48,48,54,50,51,50,57,56,53,54,49,101,45,49,120] 0
@@ -276,9 +274,9 @@ theorem C04_fast_exact (neg : Bool) (man : Nat) (exp10 : Int) (d : Nat)
     (Nat.lt_trans hlt (by decide)) h1 (by omega) d h
 
 /-- **End-to-end for the fast path**: whenever `parseNumber` answers through the exact fast path (for a token whose
-    written exponent is below 100000 in magnitude), the stored double is the one the reference demands. -/
+    length is below `2^32`), the stored double is the one the reference demands. -/
 theorem C04_fast_path_correct (buf : List Nat) (len start : Nat) (t : Token) (v : JNum) (n : Nat)
-    (ht : scanToken (buf.drop start) = some t) (hexp : (expVal t.exp).natAbs < 100000)
+    (ht : scanToken (buf.drop start) = some t) (hL : t.len < 2 ^ 32)
     (h : parseNumber buf len start = .ok v n .fast) :
     scanNumber buf start = .ok v n := by
   unfold parseNumber at h
@@ -287,7 +285,15 @@ theorem C04_fast_path_correct (buf : List Nat) (len start : Nat) (t : Token) (v 
   · rw [ha] at h; cases h
   · rw [ha] at h
     obtain ⟨hm0, hm52, he1, he2, d, hd, hv, hnx⟩ := convert_fast f _ v n h
-    obtain ⟨hnext, hneg, _, htb, k, hk, _, _, htr⟩ := C04_accumulate buf start t f ht ha hexp
+    have hnext := hg.next
+    have hneg := hg.neg
+    have htb : f.trunc = true → 2 ^ 52 < f.man := by
+      intro htr
+      have := hg.trunc_big htr
+      have : (2 : Nat) ^ 52 < 10 ^ 16 := by decide
+      omega
+    obtain ⟨k, hk, _, _, htr⟩ := Sonic.Proofs.NumberAll.good_exact t _ f hg
+      (Sonic.Proofs.NumberAll.token_digits _ t ht) (Or.inr hL) ⟨by omega, by omega⟩
     have hlt : f.man < 2 ^ 52 := (Nat.div_eq_zero_iff_lt (by decide)).1 hm52
     have htrunc : f.trunc = false := by
       cases hh : f.trunc with
@@ -377,10 +383,10 @@ example : Sonic.Model.NormalFast.parseFloatingNormalFast 0 9007199254740993 fals
 
 
 /-- **End-to-end for the `ParseFloatingNormalFast` path**: whenever `parseNumber` answers through that path (for a
-    token whose written exponent is below 100000 in magnitude), the stored double is the one the reference demands.
+    token shorter than `2^32` bytes), the stored double is the one the reference demands.
     (The guard `!trunc` makes `man·10^exp10` the exact decimal of the text: `C04_accumulate`.) -/
 theorem C04_normalfast_path_correct (buf : List Nat) (len start : Nat) (t : Token) (v : JNum) (n : Nat)
-    (ht : scanToken (buf.drop start) = some t) (hexp : (expVal t.exp).natAbs < 100000)
+    (ht : scanToken (buf.drop start) = some t) (hL : t.len < 2 ^ 32)
     (h : parseNumber buf len start = .ok v n .normalfast) :
     scanNumber buf start = .ok v n := by
   unfold parseNumber at h
@@ -389,7 +395,11 @@ theorem C04_normalfast_path_correct (buf : List Nat) (len start : Nat) (t : Toke
   · rw [ha] at h; cases h
   · rw [ha] at h
     obtain ⟨hm0, htrunc, he1, he2, raw, hraw, hv, hnx⟩ := convert_normalfast f _ v n h
-    obtain ⟨hnext, hneg, hman, _, k, hk, _, _, htr⟩ := C04_accumulate buf start t f ht ha hexp
+    have hnext := hg.next
+    have hneg := hg.neg
+    have hman := hg.man_lt
+    obtain ⟨k, hk, _, _, htr⟩ := Sonic.Proofs.NumberAll.good_exact t _ f hg
+      (Sonic.Proofs.NumberAll.token_digits _ t ht) (Or.inr hL) ⟨by omega, by omega⟩
     obtain ⟨_, hmant, hexp10⟩ := htr htrunc
     have hr := C04_normalfast_correct f.man f.exp10 f.neg raw (by omega)
       (Nat.lt_trans hman (by decide)) (by omega) (by omega) hraw
@@ -495,10 +505,10 @@ example : Sonic.Model.EiselLemire.atofEiselLemire64 1 348 false = none := by dec
 
 /-- **End-to-end for the Eisel-Lemire paths**: whenever `parseNumber` answers through Eisel-Lemire — path `el`
     (mantissa not truncated, one call) or `el2` (more than 19 significant digits: the calls for `man` and `man + 1`
-    agree) — for a token whose written exponent is below 100000 in magnitude, the stored double is the one the
+    agree) — for a token shorter than `2^32` bytes, the stored double is the one the
     reference demands: the correctly rounded value of the *full* decimal text. -/
 theorem C04_el_path_correct (buf : List Nat) (len start : Nat) (t : Token) (v : JNum) (n : Nat) (p : Path)
-    (ht : scanToken (buf.drop start) = some t) (hexp : (expVal t.exp).natAbs < 100000)
+    (ht : scanToken (buf.drop start) = some t) (hL : t.len < 2 ^ 32)
     (hp : p = .el ∨ p = .el2) (h : parseNumber buf len start = .ok v n p) :
     scanNumber buf start = .ok v n := by
   unfold parseNumber at h
@@ -511,7 +521,13 @@ theorem C04_el_path_correct (buf : List Nat) (len start : Nat) (t : Token) (v : 
     rcases hp with hp | hp <;> rw [hp] at h <;> exact absurd h.2.2 (by decide)
   · rw [ha] at h
     obtain ⟨hm0, hnx, b, hv, hel, hcase⟩ := convert_el f _ v n p hp h
-    obtain ⟨hnext, hneg, hman, _, k, hk, hk1, hk2, htr⟩ := C04_accumulate buf start t f ht ha hexp
+    have hnext := hg.next
+    have hneg := hg.neg
+    have hman := hg.man_lt
+    have hin : ¬ (f.exp10 < -348 ∨ f.exp10 > 347) := by
+      intro hr; rw [Sonic.Proofs.NumberAll.el_none_of_range _ _ _ hr] at hel; cases hel
+    obtain ⟨k, hk, hk1, hk2, htr⟩ := Sonic.Proofs.NumberAll.good_exact t _ f hg
+      (Sonic.Proofs.NumberAll.token_digits _ t ht) (Or.inr hL) ⟨by omega, by omega⟩
     have h64 : f.man + 1 < 2 ^ 64 := Nat.lt_of_lt_of_le (Nat.succ_lt_succ hman) (by decide)
     have hlo := C04_el_correct f.man f.exp10 f.neg b (by omega) (by omega) hel
     have hr : Rne.round t.neg t.mantissa t.exponent = some b := by
@@ -539,7 +555,7 @@ open Sonic.Model.BigDecimal (atofNative rightShift leftShift)
 
 /-- **The big-decimal fallback is correct.**  Let `txt` be the bytes handed to `AtofNative` (the real parser passes
     the rest of the buffer, `len_ - pos_ + 1` bytes from the start of the number), let the reference scanner find the
-    token `t` at its start, with a written exponent below 100000 in magnitude (beyond: known finding F6), and let the
+    token `t` at its start, shorter than `2^32` bytes (no bound on the written exponent: known finding F6 is fixed), and let the
     byte after the token satisfy `nativeGuard` (not `.` after a fraction without exponent part, not a digit after a
     lone `0`; see `C04_native_guard_needed`).  Then, for texts of **any length** (more than 800 significant digits
     included: the dropped digits only enter through `trunc`, and flooring to 800 digits at every shift never crosses
@@ -550,16 +566,16 @@ open Sonic.Model.BigDecimal (atofNative rightShift leftShift)
     of `LeftShift` ends at exactly 0 (`LSHIFT_TAB`/`PrefixIsLess` predict the number of new digits exactly), and no
     loop exceeds its bound. -/
 theorem C04_decimal_correct (txt : List Nat) (t : Token) (ht : scanToken txt = some t)
-    (hg : nativeGuard t (txt.drop t.len) = true) (hexp : (expVal t.exp).natAbs < 100000) :
+    (hg : nativeGuard t (txt.drop t.len) = true) (hL : t.len < 2 ^ 32) :
     atofNative txt = (specBits t.neg (Rne.round t.neg t.mantissa t.exponent), false) :=
-  Sonic.Proofs.Dec.atofNative_correct txt t ht hg hexp
+  Sonic.Proofs.Dec.atofNative_correct txt t ht hg (Or.inr hL)
 
 -- non-vacuity: 47 significant digits just above the tie 2^53+1 (Eisel–Lemire cannot decide it), followed by `,`
 example : (scanToken [57,48,48,55,49,57,57,50,53,52,55,52,48,57,57,51,46,48,48,48,48,48,48,48,48,48,48,48,48,48,48,48,48,
     48,48,48,48,48,48,48,48,48,48,48,48,48,48,49,44]).any (fun t =>
       nativeGuard t (List.drop t.len [57,48,48,55,49,57,57,50,53,52,55,52,48,57,57,51,46,48,48,48,48,48,48,48,48,48,48,
         48,48,48,48,48,48,48,48,48,48,48,48,48,48,48,48,48,48,48,48,49,44]) &&
-      decide ((expVal t.exp).natAbs < 100000) &&
+      decide (t.len < 2 ^ 32) &&
       (Rne.round t.neg t.mantissa t.exponent == some 4845873199050653697)) = true := by decide +kernel
 example : atofNative [57,48,48,55,49,57,57,50,53,52,55,52,48,57,57,51,46,48,48,48,48,48,48,48,48,48,48,48,48,48,48,48,48,
     48,48,48,48,48,48,48,48,48,48,48,48,48,48,49,44] = (4845873199050653697, false) := by decide +kernel
@@ -583,14 +599,14 @@ theorem C04_decimal_shift_exact (d : Sonic.Model.BigDecimal.Decimal) (k : Nat) (
 /-- **End-to-end for the native path**: whenever `parseNumber` answers through `AtofNative` — with a double, or with
     `kParseErrorInfinity` — the reference scanner says the same.  Hypotheses (on the buffer only): the token ends at or
     before `len_` (so the `len_ - pos_ + 1` bytes handed to `AtofNative` contain it; a token only depends on its own
-    bytes: `Proofs.Dec.scanToken_take`), the byte after it satisfies `nativeGuard`, written exponent below 100000. -/
+    bytes: `Proofs.Dec.scanToken_take`), the byte after it satisfies `nativeGuard`, the token is shorter than `2^32` bytes. -/
 theorem C04_native_path_correct (buf : List Nat) (len start : Nat) (t : Token)
     (ht : scanToken (buf.drop start) = some t) (hlen : start + t.len ≤ len)
     (hg : nativeGuard t ((buf.drop start).drop t.len) = true)
-    (hexp : (expVal t.exp).natAbs < 100000) :
+    (hL : t.len < 2 ^ 32) :
     (∀ v n, parseNumber buf len start = .ok v n .native → scanNumber buf start = .ok v n) ∧
     (∀ p, parseNumber buf len start = .err errInfinity p → scanNumber buf start = .infinity p) :=
-  Sonic.Proofs.Dec.native_path_agrees' buf len start t ht hlen hg hexp
+  Sonic.Proofs.Dec.native_path_agrees' buf len start t ht hlen hg (Or.inr hL)
 
 -- non-vacuity: the 47-digit number inside a buffer with the sentinel
 example : parseNumber [57,48,48,55,49,57,57,50,53,52,55,52,48,57,57,51,46,48,48,48,48,48,48,48,48,48,48,48,48,48,48,48,
@@ -625,16 +641,16 @@ open Sonic.Proofs.Parse (NumAgrees numOut NumOut BufAt)
 /-- **Master theorem: `parseNumber` agrees with the reference on every path.**  If the reference scanner finds the
     token `t` at `start`, the token ends at or before `len` (`len_`; the parser calls `parseNumber` with the text
     length, and the `len_ - pos_ + 1` bytes handed to `AtofNative` then contain the token), its written exponent is
-    below 100000 in magnitude (known finding F6) and the byte after it satisfies `nativeGuard` (known finding
+    unrestricted (known finding F6 is fixed; the token only has to be shorter than `2^32` bytes) and the byte after it satisfies `nativeGuard` (known finding
     `C04_native_guard_needed`), then whatever path `parseNumber` takes — `int` (all three integer kinds and
     `-(double)man`), `zero`, `fast`, `normalfast`, `el`, `el2`, `native` — its outcome agrees with the reference:
     same kind and value, same end index with `start < next ≤ len`, and `kParseErrorInfinity` exactly when the reference
     says the value rounds to infinity (`NumAgrees`, `numOut` of `Proofs/ParseInv.lean`). -/
 theorem C04_parseNumber_correct (buf : List Nat) (len start : Nat) (t : Token)
     (ht : scanToken (buf.drop start) = some t) (hlen : start + t.len ≤ len)
-    (hexp : (expVal t.exp).natAbs < 100000) (hg : nativeGuard t ((buf.drop start).drop t.len) = true) :
+    (hL : t.len < 2 ^ 32) (hg : nativeGuard t ((buf.drop start).drop t.len) = true) :
     NumAgrees start len (scanNumber buf start) (numOut (parseNumber buf len start)) :=
-  Sonic.Proofs.NumberAll.parseNumber_correct buf len start t ht hlen hexp hg
+  Sonic.Proofs.NumberAll.parseNumber_correct buf len start t ht hlen (Or.inr hL) hg
 
 /-- **Malformed.**  Where the reference finds no number token, it answers `malformed` and `parseNumber` reports
     `kParseErrorInvalidChar` (at some position `p`; `NumAgrees` does not constrain it and `Parser::Parse` clamps it
@@ -670,17 +686,16 @@ theorem C04_parseNumber_congr (buf buf' : List Nat) (len start : Nat) (h : buf.d
 /-- **The number model on the parser's buffer** (the form `NumberCorrectOn` needs).  `bs` is the input text and `buf`
     any buffer that agrees with `bs ++ x"x ++ pad` from `start` on (`BufAt`: whatever the 61 padding bytes and
     whatever earlier in-place string decoding left below `start`).  Then the reference scanner sees in `buf` exactly
-    what it sees in `bs` (the sentinel `x` stops every scan), and if every token it finds at `start` has a written
-    exponent below 100000 in magnitude and satisfies `nativeGuard` *in the text `bs`* — in particular if there is no
-    token at all — `parseNumber buf |bs| start` agrees with `scanNumber bs start`. -/
+    what it sees in `bs` (the sentinel `x` stops every scan), and if the text is shorter than `2^32` bytes and every
+    token found at `start` satisfies `nativeGuard` *in the text `bs`* — in particular if there is no token at all —
+    `parseNumber buf |bs| start` agrees with `scanNumber bs start`.  No condition on written exponents. -/
 theorem C04_number_agrees_padded (bs pad buf : List Nat) (start : Nat) (hs : start ≤ bs.length)
-    (hb : BufAt bs pad buf start)
-    (hgood : ∀ t, scanToken (bs.drop start) = some t →
-      (expVal t.exp).natAbs < 100000 ∧ nativeGuard t ((bs.drop start).drop t.len) = true) :
+    (hb : BufAt bs pad buf start) (hL : bs.length < 2 ^ 32)
+    (hgood : ∀ t, scanToken (bs.drop start) = some t → nativeGuard t ((bs.drop start).drop t.len) = true) :
     scanNumber buf start = scanNumber bs start ∧
     NumAgrees start bs.length (scanNumber bs start) (numOut (parseNumber buf bs.length start)) :=
   ⟨(Sonic.Proofs.NumberAll.scan_padded bs pad buf start hs hb.2).2,
-    Sonic.Proofs.NumberAll.number_agrees_padded bs pad buf start hs hb.2 hgood⟩
+    Sonic.Proofs.NumberAll.number_agrees_padded bs pad buf start hs hb.2 hL hgood⟩
 
 /-- **`AtofNative` never faults, on any byte string** (valid number or not): no index into the 800-byte digit buffer
     is out of range, `LeftShift`'s write index never goes negative, every table index is in range and no loop
@@ -689,13 +704,10 @@ theorem C04_native_never_faults (txt : List Nat) : (atofNative txt).2 = false :=
   Sonic.Proofs.Dec.atofNative_nofault txt
 
 
-/-- **Master theorem under the weak exponent guard.**  As `C04_parseNumber_correct`, but the written exponent only has
-    to be below 100000 in magnitude *or the token at most 9600 bytes long*.  In a short token a larger exponent makes
-    both `int exp` accumulators (`parseNumber`'s and `SetDecimal`'s: `if (exp < 10000) exp = exp * 10 + digit`) saturate
-    in `[10000, 99999]` with the right sign; at most 9600 mantissa digits shift the decimal exponent by less than 9600,
-    so `exp10` stays beyond `±348` (the exact fast path, `ParseFloatingNormalFast` and Eisel–Lemire decline) and
-    `AtofNative` sees the decimal point beyond `310` resp. below `-330`: `kParseErrorInfinity` resp. `±0.0`, exactly
-    what the reference says for the true exponent.  Known finding F6 therefore needs a token of more than 9600 bytes. -/
+/-- **The master theorem in its pre-fix form** (kept under its name).  Before the fix of known finding F6 the written
+    exponent had to be below 100000 in magnitude *or the token at most 9600 bytes long* (both `int exp` accumulators
+    saturated in `[10000, 99999]`, harmlessly in a short token).  With the patched code (`int64_t exp`, cap `10^15`,
+    clamps) this is a special case of `C04_parseNumber_correct`. -/
 theorem C04_parseNumber_correct' (buf : List Nat) (len start : Nat) (t : Token)
     (ht : scanToken (buf.drop start) = some t) (hlen : start + t.len ≤ len)
     (hexp : (expVal t.exp).natAbs < 100000 ∨ t.len ≤ 9600)
@@ -703,7 +715,9 @@ theorem C04_parseNumber_correct' (buf : List Nat) (len start : Nat) (t : Token)
     NumAgrees start len (scanNumber buf start) (numOut (parseNumber buf len start)) :=
   Sonic.Proofs.NumberAll.parseNumber_correct' buf len start t ht hlen hexp hg
 
--- non-vacuity: `1e100000` → kParseErrorInfinity, `1e-100000` → +0.0, `-1E-99999999999` → -0.0, and a zero mantissa
+-- non-vacuity: `1e100000` → kParseErrorInfinity, `1e-100000` → +0.0, `-1E-99999999999` → -0.0, and a zero mantissa;
+-- below: exponents that saturate the 64-bit accumulator, and a small-scale version of the F6 input
+-- (`0.<40 zeros>1e41` = 1.0: the written exponent is compensated by the fraction digits)
 example : parseNumber [49,101,49,48,48,48,48,48,120,34,120] 8 0 = .err errInfinity 8 ∧
     scanNumber [49,101,49,48,48,48,48,48,120,34,120] 0 = .infinity 8 := by decide +kernel
 example : parseNumber [49,101,45,49,48,48,48,48,48,120,34,120] 9 0 = .ok (.real 0) 9 .native ∧
@@ -713,5 +727,18 @@ example : parseNumber [45,49,69,45,57,57,57,57,57,57,57,57,57,57,57,120,34,120] 
   decide +kernel
 example : parseNumber [48,101,57,57,57,57,57,57,120,34,120] 8 0 = .ok (.real 0) 8 .zero ∧
     scanNumber [48,101,57,57,57,57,57,57,120,34,120] 0 = .ok (.real 0) 8 := by decide +kernel
+example : parseNumber [49,101,49,48,48,48,48,48,48,48,48,48,48,48,48,48,48,48,48,48,48,120,34,120] 21 0
+      = .err errInfinity 21 ∧
+    scanNumber [49,101,49,48,48,48,48,48,48,48,48,48,48,48,48,48,48,48,48,48,48,120,34,120] 0 = .infinity 21 := by
+  decide +kernel
+example : parseNumber [49,101,45,49,48,48,48,48,48,48,48,48,48,48,48,48,48,48,48,48,48,48,120,34,120] 22 0
+      = .ok (.real 0) 22 .native ∧
+    scanNumber [49,101,45,49,48,48,48,48,48,48,48,48,48,48,48,48,48,48,48,48,48,48,120,34,120] 0 = .ok (.real 0) 22 := by
+  decide +kernel
+example : parseNumber [48,46,48,48,48,48,48,48,48,48,48,48,48,48,48,48,48,48,48,48,48,48,48,48,48,48,48,48,48,48,48,48,
+      48,48,48,48,48,48,48,48,48,48,49,101,52,49,120,34,120] 46 0 = .ok (.real 4607182418800017408) 46 .fast ∧
+    scanNumber [48,46,48,48,48,48,48,48,48,48,48,48,48,48,48,48,48,48,48,48,48,48,48,48,48,48,48,48,48,48,48,48,
+      48,48,48,48,48,48,48,48,48,48,49,101,52,49,120,34,120] 0 = .ok (.real 4607182418800017408) 46 := by
+  decide +kernel
 
 end Sonic.Props.C04
